@@ -608,3 +608,30 @@ def rule_gauge_record_agree(ctx):
             r.ok(q, sample={"loop": src_of(lp.iter)[:30], "applied": sorted({src_of(c.args[1]) for c in applied}), "recorded from": sorted(base)})
     r.floor(n, 2, "insert loops of gauge_simple_insert")
     return r
+
+
+def rule_merge_collapses_holders(ctx):
+    r = RuleResult(
+        "merge-collapses-holders",
+        "diagonal_reduce merges two existing indices by renaming one into the other across the whole network; afterwards *every* tensor that "
+        "held both carries the surviving index twice. The later passes and the contraction bookkeeping treat the labels of a tensor as "
+        "distinct, so the repeated index is collapsed (diagonal taken) on every holder of the surviving index — in a loop over the holders, "
+        "not only on the diagonal tensor that triggered the merge",
+    )
+    f = ctx.prog.func("quimb.tensor.tensor_core", "TensorNetwork.diagonal_reduce")
+    if f is None:
+        raise AnalysisError("merge-collapses-holders: TensorNetwork.diagonal_reduce not found")
+    renames = [c for c in ast.walk(f.node) if isinstance(c, ast.Call) and isinstance(c.func, ast.Attribute) and c.func.attr == "reindex_" and isinstance(c.func.value, ast.Name)]
+    if not renames:
+        raise AnalysisError("merge-collapses-holders: diagonal_reduce no longer renames an index network-wide")
+    where = f"{f.module.relpath}:{renames[0].lineno}"
+    loops = [lp for lp in ast.walk(f.node) if isinstance(lp, ast.For) and lp.lineno > renames[0].lineno
+             and any(isinstance(y, ast.Attribute) and y.attr in ("_inds_get", "ind_map") for y in ast.walk(lp.iter))
+             and any(isinstance(c, ast.Call) and isinstance(c.func, ast.Attribute) and c.func.attr.rstrip("_") == "collapse_repeated" for c in ast.walk(lp))]
+    if loops:
+        r.ok("TensorNetwork.diagonal_reduce", sample={"rename": src_of(renames[0])[:40], "collapsed on": "every holder of the surviving index"})
+    else:
+        r.bad(Finding("merge-collapses-holders", "TensorNetwork.diagonal_reduce",
+                      f"after `{src_of(renames[0])[:40]}` only the diagonal tensor is collapsed: another tensor that held both merged indices keeps the surviving one twice, "
+                      "and pair_simplify / antidiag_gauge / split_simplify then produce a wrong network", where=where, operand="holders"))
+    return r
